@@ -242,6 +242,19 @@ func (i *Inst) RunHostile(s *HsScript, tw *TraceWriter, rng *rand.Rand) error {
 			} else if rep != nil {
 				outcome = "error-reply"
 			}
+		case "out-only-many":
+			// hundreds of RDG_OUT_DATA requests, each under an identifier of its own, none followed by RDG_IN_DATA, each
+			// closed again before the next: afterwards tunnels of other clients are served as before (probe below)
+			for k := 0; k < 300; k++ {
+				dk := d
+				dk.ConnID = i.R.NextCid("lo")
+				if out, _, _ := wsraw.DialLegacyOut(dk); out != nil {
+					out.Close()
+				}
+			}
+			if !i.probeTunnel(s.Script, rng) {
+				othersStarved = true
+			}
 		case "out-only-then-close":
 			out, _, _ := wsraw.DialLegacyOut(d)
 			if out != nil {
